@@ -167,13 +167,19 @@ FAMILIES: Dict[str, Dict[str, Any]] = {
     # type + parse only
     "E": {"cfg": {"type": "str", "parse": ".custom_scalars.parse_e"}, "py": "str", "parse": "parse_e", "serialize": None},
     # type + serialize only, absolute dotted path
+    # (a class type without `parse` cannot receive response values: such scalars are not selected in results)
     "F": {"cfg": {"type": "gen_pkg.custom_scalars.TF", "serialize": "gen_pkg.custom_scalars.serialize_f"},
-          "py": "cls", "cls": "TF", "parse": None, "serialize": "serialize_f"},
+          "py": "cls", "cls": "TF", "parse": None, "serialize": "serialize_f", "results": False},
     # not configured at all -> Any
     "G": {"cfg": None, "py": "any", "parse": None, "serialize": None},
 }
 
 BUILTIN_SCALARS = ["String", "Int", "Float", "Boolean", "ID"]
+
+
+def result_scalars(case: Dict[str, Any]) -> List[str]:
+    """the custom scalars of a case whose configuration can receive response values"""
+    return [s for s in case["scalars"] if family_of(case, s).get("results", True)]
 
 
 def family_of(case: Dict[str, Any], scalar: str) -> Dict[str, Any]:
@@ -383,7 +389,7 @@ def finish_case(case: Dict[str, Any]) -> None:
         call = ", ".join(f"a{i}: ${d['name']}" for i, d in enumerate(op["defs"]))
         sel = "ok"
         if case.get("want_results", True):
-            scal = " ".join(f"{s.lower()}Plain {s.lower()}Req {s.lower()}List {s.lower()}Deep" for s in case["scalars"])
+            scal = " ".join(f"{s.lower()}Plain {s.lower()}Req {s.lower()}List {s.lower()}Deep" for s in result_scalars(case))
             sel = f"ok {scal} child {{ ok {scal} }} kids {{ {scal or 'ok'} }}"
         docs.append(f"{op['kind']} {op['name']}" + (f"({vars_})" if vars_ else "") + " { " + op["field"] + (f"({call})" if call else "")
                     + " { " + sel + " } }")
